@@ -45,6 +45,29 @@ def watch_connects(addr, port, breaker_at, breaker):
     return w
 
 
+# a user script that asks for a retry whatever happens (before the response body, after the response, after an error): the
+# number of tries still bounds the work
+HOOK_PLUGIN = '''
+from wpull.application.hook import Actions
+from wpull.application.plugin import WpullPlugin, PluginFunctions, hook
+
+
+class RetryEverything(WpullPlugin):
+    @hook(PluginFunctions.handle_pre_response)
+    def pre(self, item_session):
+        return Actions.RETRY if '/hookpre/' in item_session.request.url else Actions.NORMAL
+
+    @hook(PluginFunctions.handle_response)
+    def resp(self, item_session):
+        return Actions.RETRY if '/hookresp/' in item_session.request.url else Actions.NORMAL
+
+    @hook(PluginFunctions.handle_error)
+    def err(self, item_session, error):
+        return Actions.RETRY if '/hookerr/' in item_session.request.url else Actions.NORMAL
+'''
+HOOK_FAMILIES = ('hookpre', 'hookresp', 'hookerr')
+
+
 def make_handler(case):
     codes = case['codes']
 
@@ -118,8 +141,10 @@ def make_handler(case):
         if fam in ('e401', 'auth401'):
             return {'status': 401, 'reason': 'Unauthorized', 'headers': html + [('WWW-Authenticate', 'Basic realm="x"')],
                     'body': b'<html>no</html>'}
-        if fam == 'reset':
+        if fam in ('reset', 'hookerr'):
             return {'raw': b'', 'close': True}
+        if fam in ('hookpre', 'hookresp'):
+            return {'status': 200, 'headers': html, 'body': b'<html><body>fine, but the script wants it again</body></html>'}
         return {'status': 404, 'reason': 'NF', 'headers': html, 'body': b'nf'}
     return handler
 
@@ -146,6 +171,11 @@ def run_case(case, part):
             argv += ['--retry-connrefused']
         if 'refused' in case['families']:
             argv += ['--span-hosts']
+        if any(f in HOOK_FAMILIES for f in case['families']):
+            with open(os.path.join(tmp, 'retry_plugin.py'), 'w') as f:
+                f.write(HOOK_PLUGIN)
+            argv += ['--plugin-script', os.path.join(tmp, 'retry_plugin.py')]
+            part.count('crawls_with_a_script_that_always_asks_for_a_retry')
         res = crawl.run_app(argv, {'a.test': addrs[0], 'b.test': addrs[1], 'c.test': addrs[2]},
                             stall_watch=(lambda: len(srv.log.snapshot()) + (watch['n'] if watch else 0), 40))
         rows = crawl.read_table(db) if os.path.exists(db) else []
@@ -221,6 +251,8 @@ def run_case(case, part):
             bound = tries * (maxr + 1) * 2
         if fam == 'refused':
             bound = tries if case.get('retry_connrefused') else 1
+        if fam in HOOK_FAMILIES:
+            bound = tries
         row = rowmap.get(('http://c.test:%d/refused/0' % DEAD_PORT) if fam == 'refused' else 'http://a.test/%s/0' % fam)
         detail = {'family': fam, 'requests': n, 'bound': bound, 'tries': tries, 'max_redirect': maxr, 'row': row}
         if n > bound:
@@ -277,6 +309,8 @@ def main():
             login = rng.random() < 0.4
             if login:
                 fams.append('auth307')
+            if i % 4 == 2:
+                fams += list(HOOK_FAMILIES)
             retry_refused = None
             if rng.random() < 0.5:
                 fams.append('refused')
